@@ -2,6 +2,7 @@ package host
 
 import (
 	"bytes"
+	"encoding/base64"
 	"encoding/json"
 	"fmt"
 	"os/exec"
@@ -79,10 +80,89 @@ func chunked(w interface{ Write([]byte) (int, error) }, b []byte, chunk int, n *
 	return nil
 }
 
+// c10Real runs the case through a real plugin process: the bytes are written
+// to the process' real stderr / stdout (kernel pipes, cmdrunner) on request
+// over the side channel.
+func c10Real(c spec.Case, e Em, p spec.C10Case) {
+	sink := &recSink{name: "vplugin-race"}
+	il := hclog.NewInterceptLogger(&hclog.LoggerOptions{Output: discard{}, Level: hclog.Trace})
+	il.RegisterSink(sink)
+	var copyBuf lockedBuf
+	cfg := baseClientConfig()
+	cfg.Logger = il
+	cfg.Stderr = &copyBuf
+	cfg.PluginLogBufferSize = p.BufSize
+	hostSetFor(cfg, "netrpc")
+	l := prepare(c.ID, "", pluginCfgFor("netrpc"), cfg, "cmd")
+	defer l.hardKill()
+	var o spec.C10Obs
+	e.Call("h", "Start", nil)
+	_, err := l.Client.Start()
+	o.StartErr = errStr(err)
+	if err != nil {
+		e.Ret("h", "Start", o)
+		return
+	}
+	write := func(stream string, b []byte, rep int, done *bool, n *int64) {
+		chunk := p.Chunk
+		if chunk <= 0 || chunk < 512 {
+			chunk = 4096 // one side-channel round trip per chunk: keep them few
+		}
+		for r := 0; r < rep; r++ {
+			rest := b
+			for len(rest) > 0 {
+				k := chunk
+				if k > len(rest) {
+					k = len(rest)
+				}
+				if _, err := l.ctl("rawwrite", "stream", stream, "b64", base64.StdEncoding.EncodeToString(rest[:k])); err != nil {
+					return
+				}
+				*n += int64(k)
+				rest = rest[k:]
+			}
+		}
+		*done = true
+	}
+	fin := make(chan struct{})
+	go func() {
+		defer close(fin)
+		var dummy int64
+		write("e", p.Stderr, 1, &o.ErrWriterDone, &dummy)
+		rep := p.StdoutRep
+		if rep < 1 {
+			rep = 1
+		}
+		write("o", p.Stdout, rep, &o.OutWriterDone, &o.OutWritten)
+	}()
+	select {
+	case <-fin:
+	case <-time.After(30 * time.Second):
+		_, _, o.Dump = within(0, func() { select {} })
+	}
+	// let the host drain what is in the pipes, then look (before Kill adds shutdown chatter)
+	want := len(p.Stderr)
+	for i := 0; i < 300 && len(copyBuf.Bytes()) < want; i++ {
+		time.Sleep(10 * time.Millisecond)
+	}
+	time.Sleep(50 * time.Millisecond)
+	o.Copy = copyBuf.Bytes()
+	sink.mu.Lock()
+	o.Recs = append([]spec.C10Rec(nil), sink.recs...)
+	sink.mu.Unlock()
+	ok, _, _ := within(30*time.Second, l.Client.Kill)
+	o.KillReturned = ok
+	e.Ret("h", "Start", o)
+}
+
 func TestC10(t *testing.T) {
 	forCases(t, 16, func(c spec.Case, e Em) {
 		var p spec.C10Case
 		param(c, &p)
+		if p.Real {
+			c10Real(c, e, p)
+			return
+		}
 		sink := &recSink{name: "scripted-plugin"}
 		il := hclog.NewInterceptLogger(&hclog.LoggerOptions{Output: discard{}, Level: hclog.Trace})
 		il.RegisterSink(sink)
